@@ -195,6 +195,22 @@ pub fn exec(toks: &[&str]) -> String {
             };
             format!("{} {}", hex(&out), rt)
         }
+        // a large notification file (many retained deltas, or long URIs): every element is small, the file as a
+        // whole exceeds any per-element limit
+        ["notifbig", nd, ulen] => {
+            let (Ok(nd), Ok(ulen)) = (nd.parse::<u64>(), ulen.parse::<usize>()) else { return "bad-op".into() };
+            let pad = "a".repeat(ulen);
+            let mk = |i: u64| uri::Https::from_str(&format!("https://h/{}/{}.xml", pad, i)).unwrap();
+            let deltas: Vec<DeltaInfo> = (0..nd).map(|i| DeltaInfo::new(1_000_000 + nd - i, mk(i), Hash::from([(i % 251) as u8; 32]))).collect();
+            let n = NotificationFile::new(Uuid::nil(), 1_000_000 + nd, UriAndHash::new(mk(nd), Hash::from([7u8; 32])), deltas);
+            let mut out = Vec::new();
+            if n.write_xml(&mut out).is_err() { return "io-err".into() }
+            let rt = match NotificationFile::parse(out.as_slice()) {
+                Ok(m) => if m == n { "same" } else { "differs" },
+                Err(_) => "err",
+            };
+            format!("{} {}", out.len(), rt)
+        }
         ["snap", spec] => {
             let p: Vec<&str> = spec.split(':').collect();
             if p.len() != 3 { return "bad-op".into() }
@@ -347,6 +363,8 @@ pub fn generate(ctx: &mut Ctx) {
         ctx.case(&format!("b64 dec {}", hex(&t)));
     }
     // --- files
+    for (nd, ulen) in [(9000u64, 1usize), (700, 1500), (1, 1), (5000, 60)] { ctx.case(&format!("notifbig {} {}", nd, ulen)); }
+    if ctx.tier_thorough { for (nd, ulen) in [(40000u64, 1usize), (300, 9000), (20000, 100)] { ctx.case(&format!("notifbig {} {}", nd, ulen)); } }
     for _ in 0..n / 5 {
         let session = rng.bytes(16);
         let serial = match rng.below(4) { 0 => 0, 1 => u64::MAX, 2 => rng.below(100), _ => rng.next() };
